@@ -10,6 +10,15 @@
      espec G (n (x0 y0 x1 y1)...)...            spec check on drawn segments, grouped per edge
      pspec G (np (nv (x y)...)...)...           spec check on drawn polygons, grouped per plaquette
      lint  tol n (s1x s1y e1x e1y s2x s2y e2x e2y)...
+   glue (Model/PlotGlue.v); colours are Python strings = code point lists  <ustr> ::= n z...
+     cres   <sarg> <kw>                                   resolve_scheme
+     argsc  N <subset> <labels> <sarg> <kw>               process_plot_args_c
+     vertsc <lat> <subset> <labels> <sarg> <kw>           plot_vertices_c
+     edgesc <lat> <subset> <labels> <sarg> <kw> <dirs>    plot_edges_c   (colour handed over, final colour)
+     plaqsc <lat> nP plaq... <subset> <labels> <sarg> <kw>  plot_plaquettes_c
+     vdef <lat> | edef <lat> | pdef <lat> nP plaq...      the calls with all defaults
+     dual  <scale nV x y.. nE j k.. nE cx cy..> <subset> <labels> K <dirs>     plot_dual (lattice of Model/Lattice.v)
+   <sarg> ::= S <ustr> | L n <ustr>...      <kw> ::= N | K <ustr>
    <subset> ::= S a b c  (a,b,c = N | hex)   |  M n b...   |  I n z...
    <labels> ::= s z | l n z...                                                      *)
 open Model
@@ -151,6 +160,111 @@ let cmd_lint c =
   let pairs = next_list c (fun c -> let a = next_seg c in let b = next_seg c in (a, b)) in
   out "li" (s_list (fun (a, b) -> s_bool (line_intersection tol a b) ^ " " ^ s_bool (segments_meet_exact a b)) pairs)
 
+(* ---------- glue: Model/PlotGlue.v ---------- *)
+let next_ustr c : z list = next_list c next_z
+let s_ustr (u : z list) = s_list s_z u
+let next_sarg c : scheme_arg =
+  match next c with
+  | "S" -> SchemeStr (next_ustr c)
+  | "L" -> SchemeList (next_list c next_ustr)
+  | t -> failwith ("bad scheme tag " ^ t)
+let next_kw c : z list option =
+  match next c with
+  | "N" -> None
+  | "K" -> Some (next_ustr c)
+  | t -> failwith ("bad kw tag " ^ t)
+
+let cmd_cres c =
+  let sa = next_sarg c in
+  let kw = next_kw c in
+  match resolve_scheme sa kw with
+  | Error e -> out "res" (s_err e)
+  | Ok sch -> out "res" "ok"; out "sch" (s_list s_ustr sch)
+
+let cmd_argsc c =
+  let n = next_nat c in
+  let s = next_subset c in
+  let l = next_labels c in
+  let sa = next_sarg c in
+  let kw = next_kw c in
+  match process_plot_args_c n s l sa kw with
+  | Error e -> out "res" (s_err e)
+  | Ok (idx, cols) -> out "res" "ok"; out "idx" (s_list s_nat idx); out "col" (s_list s_ustr cols)
+
+let out_verts r =
+  match r with
+  | Error e -> out "res" (s_err e)
+  | Ok pts -> out "res" "ok"; out "pts" (s_list (fun (p, col) -> s_point p ^ " " ^ s_ustr col) pts)
+let out_edges kw r =
+  match r with
+  | Error e -> out "res" (s_err e)
+  | Ok dr ->
+    out "res" "ok";
+    out "drawn" (s_list (fun (sg, (col, dire)) ->
+        sp [ s_seg sg; s_ustr col; s_ustr (final_colour kw col); s_z dire ]) dr)
+let out_plaqs r =
+  match r with
+  | Error e -> out "res" (s_err e)
+  | Ok r ->
+    out "res" "ok";
+    out "np" (string_of_int (List.length r));
+    List.iteri (fun i (polys, col) ->
+        out ("p" ^ string_of_int i) (sp [ s_ustr col; s_list s_poly polys ])) r
+
+let cmd_vertsc c =
+  let lat = read_lat c in
+  let s = next_subset c in
+  let l = next_labels c in
+  let sa = next_sarg c in
+  let kw = next_kw c in
+  out_verts (plot_vertices_c lat s l sa kw)
+let cmd_edgesc c =
+  let lat = read_lat c in
+  let s = next_subset c in
+  let l = next_labels c in
+  let sa = next_sarg c in
+  let kw = next_kw c in
+  let d = next_labels c in
+  out_edges kw (plot_edges_c lat s l sa kw d)
+let cmd_plaqsc c =
+  let lat = read_lat c in
+  let pls = next_list c read_plaq in
+  let s = next_subset c in
+  let l = next_labels c in
+  let sa = next_sarg c in
+  let kw = next_kw c in
+  out_plaqs (plot_plaquettes_c lat pls s l sa kw)
+let cmd_vdef c = let lat = read_lat c in out_verts (plot_vertices_default lat)
+let cmd_edef c = let lat = read_lat c in out_edges None (plot_edges_default lat)
+let cmd_pdef c = let lat = read_lat c in let pls = next_list c read_plaq in out_plaqs (plot_plaquettes_default lat pls)
+
+let read_lattice c : lattice =
+  let sc = next_z c in
+  let ps = next_list c next_zpair in
+  let es = next_list c next_natpair in
+  let cr = next_list c next_zpair in
+  { scale = sc; pos = ps; edges = es; crossing = cr }
+
+let cmd_dual c =
+  let l = read_lattice c in
+  let s = next_subset c in
+  let lab = next_labels c in
+  let sch = next_scheme c in
+  let d = next_labels c in
+  (match make_dual l with
+   | DualOk dl ->
+     out "dpos" (s_list s_point dl.qpos);
+     out "ded" (s_list (fun (a, b) -> s_nat a ^ " " ^ s_nat b) dl.qedges);
+     out "dcr" (s_list (fun (a, b) -> s_z a ^ " " ^ s_z b) dl.qcrossing)
+   | _ -> ());
+  match plot_dual l s lab sch d with
+  | DPStuck -> out "res" "STUCK"
+  | DPDuplicate -> out "res" "DUPLICATE"
+  | DPDrawn (Error e) -> out "res" (s_err e)
+  | DPDrawn (Ok dr) ->
+    out "res" "ok";
+    out "drawn" (s_list (fun (sg, (col, dire)) -> sp [ s_seg sg; s_z col; s_z dire ]) dr)
+
 let () =
   iter_lines (fun line ->
       let c = cursor_of_line line in
@@ -164,6 +278,15 @@ let () =
           | "espec" -> cmd_espec c
           | "pspec" -> cmd_pspec c
           | "lint" -> cmd_lint c
+          | "cres" -> cmd_cres c
+          | "argsc" -> cmd_argsc c
+          | "vertsc" -> cmd_vertsc c
+          | "edgesc" -> cmd_edgesc c
+          | "plaqsc" -> cmd_plaqsc c
+          | "vdef" -> cmd_vdef c
+          | "edef" -> cmd_edef c
+          | "pdef" -> cmd_pdef c
+          | "dual" -> cmd_dual c
           | _ -> out "error" ("unknown command " ^ cmd))
        with Failure m -> out "error" m);
       print_endline "end")
